@@ -30,6 +30,7 @@ def step (st : DState) (line : String) : DState × String :=
   | "ou" :: rest => let (t, o) := ouStep st.ou rest; ({ st with ou := t }, o)
   | "pl" :: rest => let (t, o) := plStep st.pl rest; ({ st with pl := t }, o)
   | "px" :: _ => (st, "-")
+  | "tx" :: _ => (st, "-")
   | "cl" :: rest => let (t, o) := clStep st.cl rest; ({ st with cl := t }, o)
   | ["ht", "last"] => (st, htLast st.lastOut)
   | ["ht", "unavailable", v] => ({ st with unavailable := v = "1" }, "ok")
